@@ -128,7 +128,7 @@ def run(ctx):
         for first in LEGS[:6]:
             jobs.append((job_family, (n, first)))
     for k in range(16):
-        jobs.append((job_random, (ctx.seed * 59 + k, 80 if quick else 2000)))
+        jobs.append((job_random, (ctx.seed * 59 + k, 80 if quick else 8000)))
     events = []
     with mp.get_context("fork").Pool(16, initializer=core._pool_init, initargs=(None,)) as pool:
         res = [pool.apply_async(f, (a,)) for f, a in jobs]
